@@ -28,7 +28,8 @@ def rule_src(ctx, tu):
             t = n.get("type", {}).get("qualType", "")
             if n.get("kind") in ("VarDecl", "CXXTemporaryObjectExpr", "CXXConstructExpr") and any(x in t for x in ND_TYPES):
                 found.append((f, n, t))
-            if n.get("kind") == "VarDecl" and n.get("storageClass") == "static":
+            if n.get("kind") == "VarDecl" and n.get("storageClass") == "static" and \
+                    not n.get("type", {}).get("qualType", "").startswith("const "):
                 ctx.violation(R, n, f.qual, text(n), "function-local static: state that survives a set-up and is shared "
                               "by all simulations of the process")
             if n.get("kind") == "VarDecl" and n.get("tls"):
